@@ -275,20 +275,24 @@ func vhItoa(n int) string {
 // the version is read from the request bytes the client wrote.
 func VH_C12_VersionPerBroker() {
 	vhConcreteClock(true)
-	max1, max2 := vhInt16("broker1_fetch_max"), vhInt16("broker2_fetch_max")
-	vhAssume(vhAll(max1 >= 0, max1 <= 20, max2 >= 0, max2 <= 20))
+	max1, max2, max1b := vhInt16("broker1_fetch_max"), vhInt16("broker2_fetch_max"), vhInt16("broker1_fetch_max_after_restart")
+	vhAssume(vhAll(max1 >= 0, max1 <= 20, max2 >= 0, max2 <= 20, max1b >= 0, max1b <= 20))
 	mk := func(max int16) *vhFakeConn {
 		return &vhFakeConn{data: vhApiVersionsFrame(1, []vhApiRange{{int16(fetch), 0, max}, {int16(metadata), 0, 8}})}
 	}
-	conns := map[string]*vhFakeConn{"h1:9092": mk(max1), "h2:9093": mk(max2)}
+	// broker 1 is dialed twice: its first connection dies after one exchange, the broker comes back (restarted in
+	// place) advertising another range
+	conns := map[string][]*vhFakeConn{"h1:9092": {mk(max1), mk(max1b)}, "h2:9093": {mk(max2)}}
+	used := map[string]int{}
 	ready := make(event)
 	p := &connPool{
 		dial: func(ctx context.Context, network, address string) (net.Conn, error) {
-			c := conns[address]
-			if c == nil {
+			k := used[address]
+			if k >= len(conns[address]) {
 				return nil, vhErrCoordinator
 			}
-			return c, nil
+			used[address] = k + 1
+			return conns[address][k], nil
 		},
 		dialTimeout: time.Second, idleTimeout: time.Minute, clientID: "vh",
 		ready: ready, wake: make(chan event), conns: make(map[int32]*connGroup),
@@ -298,9 +302,15 @@ func VH_C12_VersionPerBroker() {
 		Brokers: []meta.ResponseBroker{{NodeID: 1, Host: "h1", Port: 9092}, {NodeID: 2, Host: "h2", Port: 9093}},
 		Topics: []meta.ResponseTopic{{Name: "t", Partitions: []meta.ResponsePartition{{PartitionIndex: 0, LeaderID: 1}, {PartitionIndex: 1, LeaderID: 2}}}}}
 	p.update(context.Background(), md, nil)
-	clientMax := int16(11) // protocol/fetch implements v0..v11 at the pinned commit; checked below against the registry
-	for part, addr := range []string{"h1:9092", "h2:9093"} {
-		req := &pfetch.Request{Topics: []pfetch.RequestTopic{{Topic: "t", Partitions: []pfetch.RequestPartition{{Partition: int32(part)}}}}}
+	clientMax := int16(11) // protocol/fetch implements v0..v11 at the pinned commit
+	steps := []struct {
+		part int
+		addr string
+		nth  int
+		adv  int16
+	}{{0, "h1:9092", 0, max1}, {1, "h2:9093", 0, max2}, {0, "h1:9092", 1, max1b}}
+	for _, st := range steps {
+		req := &pfetch.Request{Topics: []pfetch.RequestTopic{{Topic: "t", Partitions: []pfetch.RequestPartition{{Partition: int32(st.part)}}}}}
 		done := false
 		go func() {
 			p.roundTrip(context.Background(), req)
@@ -310,24 +320,24 @@ func VH_C12_VersionPerBroker() {
 		vhRunAll()
 		vhRunAll()
 		vhAssert(done, "round-trip-returns")
-		w := conns[addr].written
-		// first frame: the ApiVersions request; second frame: the fetch request
-		vhAssert(len(w) > 4, "something-was-written")
+		vhAssert(used[st.addr] == st.nth+1, "request-goes-to-the-partition-leader-over-a-fresh-connection")
+		if used[st.addr] != st.nth+1 {
+			continue
+		}
+		w := conns[st.addr][st.nth].written
+		// first frame: the ApiVersions request (every connection negotiates); second frame: the fetch request
+		vhAssert(len(w) > 8 && int16(uint16(w[4])<<8|uint16(w[5])) == int16(apiVersions), "every-connection-starts-with-ApiVersions")
 		first := 4 + int(vhBE32(w))
 		vhAssert(len(w) >= first+8, "fetch-request-written-to-the-partition-leader")
 		if len(w) >= first+8 {
 			key := int16(uint16(w[first+4])<<8 | uint16(w[first+5]))
 			ver := int16(uint16(w[first+6])<<8 | uint16(w[first+7]))
-			adv := max1
-			if part == 1 {
-				adv = max2
-			}
-			want := adv
+			want := st.adv
 			if clientMax < want {
 				want = clientMax
 			}
 			vhAssert(key == int16(fetch), "second-request-is-the-fetch")
-			vhAssert(ver == want, "request-version-is-min-of-client-max-and-this-brokers-max")
+			vhAssert(ver == want, "request-version-is-min-of-client-max-and-this-connections-advertised-max")
 		}
 	}
 	vhReach("c12-version-per-broker")
